@@ -1,6 +1,6 @@
 # table consumed by tools_manifest.py
 ENGINES = [
-    {"name": "vv", "path": "vv/", "serves_properties": ["C02", "C03", "C04", "C05", "C06", "C07", "C09", "C10", "C11", "C12", "C13", "C14", "C15", "C16", "C17", "C18", "C19"], "kind_free_text": "runtime monitors: generators, independent flatbuffer reader/writer, compile drivers, sharded worker harness, evidence/findings"},
+    {"name": "vv", "path": "vv/", "serves_properties": ["C01", "C02", "C03", "C04", "C05", "C06", "C07", "C09", "C10", "C11", "C12", "C13", "C14", "C15", "C16", "C17", "C18", "C19"], "kind_free_text": "runtime monitors: generators, independent flatbuffer reader/writer, compile drivers, sharded worker harness, evidence/findings"},
 ]
 NOTES = ("Technique family: runtime monitoring and sanitizers. Every check runs the real code from /repo's working tree (codec rebuilt from the C "
          "sources on every run) under generated workloads with oracles observing executions; verdicts are violated / held-on-what-was-observed / "
@@ -156,3 +156,13 @@ check("C10", "exploration",
       "The IFM box may extend beyond the last consumed row; SAME/VALID operator padding is recomputed by the TFLite rule, explicit padding is taken from the fused PAD; upscaled, "
       "transpose-convolution and tile-aliased stripes are not judged by the receptive-field clause.",
       "runtime monitor on hooked stripes + exhaustive direct drive against a reference model", "DESIGN.md 4/C10")
+
+check("C01", "translation_validation",
+      "Per-compilation validation by executing the artefact: the source model runs under an independent NumPy TFLite reference interpreter (integer kernels with gemmlowp "
+      "arithmetic); the output model runs operator by operator over a byte image of the tensor arena - CPU operators under the same interpreter, each Ethos-U operator by "
+      "replaying its decoded command stream in an executable NPU model (DMA, conv/depthwise/FC from MLW-decoded weights and 10-byte scale records, pooling, elementwise with "
+      "both operand-scaling modes, rounding modes, clamps, 8-bit table lookup, upscaling, 1-2 cores) over exactly the bytes stored in the output file; outputs are compared "
+      "bit-exactly for the exact class and within 1 LSB for networks with one approximated operator at the tail, on 3 inputs x 2 arena poison patterns per network.",
+      "The NPU model and the reference interpreter are the trusted base (DESIGN Appendix B/C, calibration notes in section 8); unmodelled modes (32-bit tables = softmax, hardware "
+      "tanh/sigmoid) make a case inconclusive; inputs are sampled.",
+      "translation validation by executing the emitted artefact in an executable hardware model", "DESIGN.md 4/C01")
